@@ -528,6 +528,13 @@ func (h *H) setClock(sec int64) {
 func (h *H) setBlock(b sim.BlockSet) {
 	h.o.block = b
 	h.srv.SetIPBlockList(b.Clone())
+	// a write that passed its blocklist check before the list changed may still be on its way to the socket (the
+	// check and the write are not one step): such datagrams belong before the SetBlock line. Wait until nobody is
+	// inside writeToNode any more, then log what has been written so far
+	for deadline := time.Now().Add(5 * time.Second); sim.CountGoroutines("(*Server).writeToNode") != 0 && time.Now().Before(deadline); {
+		time.Sleep(100 * time.Microsecond)
+	}
+	h.flush(false)
 	bl := []string{}
 	for k := range b {
 		bl = append(bl, sim.Hex([]byte(k)))
